@@ -158,7 +158,7 @@ def native_confirm(report, prop, cands, desc, oracle, probes=None, max_groups=40
             if c.get("amounts") is not None:
                 cases.append(dict(c))
         if probes and c0["op"] not in ("none",):
-            for am in probes(c0):
+            for am in _call_probes(probes, c0, desc[k[0]]):
                 c2 = dict(c0)
                 c2["amounts"] = am
                 cases.append(c2)
@@ -194,6 +194,13 @@ def native_confirm(report, prop, cands, desc, oracle, probes=None, max_groups=40
         c0 = groups[k][0]
         report.inconcl("candidate %s [%s] not replayed (too many candidates)" % (c0["key"], c0["kind"]))
     report.time_engine("native_replay", time.time() - t0)
+
+
+def _call_probes(probes, c, d):
+    try:
+        return probes(c, d)
+    except TypeError:
+        return probes(c)
 
 
 def role_key(c):
@@ -366,3 +373,30 @@ def translator_validation(report, pool, desc, ops, full=False):
 def _tv_call(args):
     r = tv_task(args)
     return r.extra_preds, r.fns, r.stubs
+
+
+# ---------------------------------------------------------------------------
+# merging outcomes into formulas
+
+def bool_of(outs):
+    """Or over non-panicking outcomes of (path condition and boolean value)"""
+    from engine.mirsmt.exec import b_and, b_or
+    return b_or(*[b_and(*(list(o.pc) + [o.value])) for o in outs if not o.panic])
+
+
+def ord_conds(outs):
+    """ordering name (or None) -> condition under which partial_cmp returned it"""
+    from engine.mirsmt.exec import b_and, b_or
+    d = {"Less": [], "Equal": [], "Greater": [], None: []}
+    for o in outs:
+        if o.panic:
+            continue
+        v = o.value
+        k = None if v.variant == "None" else v.payload[0].variant
+        d[k].append(b_and(*o.pc))
+    return {k: b_or(*v) for k, v in d.items()}
+
+
+def z(b):
+    import z3
+    return z3.BoolVal(b) if isinstance(b, bool) else b
